@@ -443,7 +443,9 @@ class Process(metaclass=abc.ABCMeta):
         Args:
             override: The schema override to add.
         """
-        deep_merge(self._schema_override, override)
+        # merge a copy: the process must not hold (and later write
+        # into) the dictionaries of whoever supplied the override
+        deep_merge(self._schema_override, copy.deepcopy(override))
 
     def ports(self) -> Dict[str, List[str]]:
         """Get ports and each port's variables.
